@@ -278,6 +278,7 @@ func runC14Bubble(t *testing.T, tape *sim.Tape, tier string, o *Outcome, schedp 
 			sched.WriteString("|")
 			o.Steps++
 		}
+		o.SimTime = time.Since(wl.Epoch) // the bubble clock starts at the epoch
 		// teardown
 		for _, c := range conns {
 			c.end.Reset()
